@@ -37,42 +37,58 @@ def mk(fn, *args, n):
     return Term(fn, tuple(chunks(a) if isinstance(a, (list, tuple)) and not (a and isinstance(a[0], tuple) and a[0] and a[0][0] in ('B', 'T')) else a for a in args), n).bytes
 
 def eq_chunks(ctx, a, b):
-    """structural equality of two normal forms -> python bool or z3 condition (symbolic bytes are compared by the solver)"""
-    fa, fb = flatten(a), flatten(b)
-    if len(fa) != len(fb): return False
-    conds = []
-    for x, y in zip(fa, fb):
-        if isinstance(x, tuple) or isinstance(y, tuple):
-            if not (isinstance(x, tuple) and isinstance(y, tuple)): return False
-            (tx, ix), (ty, iy) = x, y
-            if ix != iy: return False
-            r = eq_terms(ctx, tx, ty)
-            if r is False: return False
-            if r is not True: conds.append(r)
-        else:
-            c = (x == y)
+    """structural equality of two normal forms -> python bool or z3 condition (symbolic bytes are compared by the solver).
+    Runs of term bytes are compared as runs (same offsets, equal terms), so the cost is linear in the number of chunks."""
+    sa, sb = segments(a), segments(b)
+    if sum(x[-1] for x in sa) != sum(x[-1] for x in sb): return False
+    conds = []; i = j = 0; oa = ob = 0          # offsets consumed inside the current segments
+    while i < len(sa) and j < len(sb):
+        x, y = sa[i], sb[j]
+        if x[0] != y[0]: return False
+        if x[0] == 'B':
+            c = (x[1] == y[1])
             if isinstance(c, bool):
                 if not c: return False
             else: conds.append(c)
+            i += 1; j += 1; continue
+        (_, tx, lx, nx), (_, ty, ly, ny) = x, y
+        if lx + oa != ly + ob: return False
+        r = eq_terms(ctx, tx, ty)
+        if r is False: return False
+        if r is not True: conds.append(r)
+        L = min(nx - oa, ny - ob); oa += L; ob += L
+        if oa == nx: i += 1; oa = 0
+        if ob == ny: j += 1; ob = 0
+    if i != len(sa) or j != len(sb): return False
     return z3.And(*conds) if conds else True
+def segments(ch):
+    out = []
+    for c in ch:
+        if c[0] == 'B': out.extend(('B', b, 1) for b in c[1])
+        else: out.append(('T', c[1], c[2], c[3] - c[2]))
+    return out
 def flatten(ch):
     out = []
     for c in ch:
         if c[0] == 'B': out.extend(c[1])
         else: out.extend((c[1], i) for i in range(c[2], c[3]))
     return out
-_eq_memo = {}
 def eq_terms(ctx, a, b):
     if a is b: return True
     if a.fn != b.fn or a.n != b.n or (a.args is None) != (b.args is None): return False
     if a.args is None: return False            # distinct atoms
     if len(a.args) != len(b.args): return False
-    conds = []
+    memo = ctx.__dict__.setdefault('_term_eq', {}) if ctx is not None else {}
+    key = (a.id, b.id)
+    if key in memo: return memo[key]
+    conds = []; res = None
     for x, y in zip(a.args, b.args):
         r = eq_chunks(ctx, x, y) if isinstance(x, tuple) else (x == y)
-        if r is False: return False
+        if r is False: res = False; break
         if r is not True: conds.append(r)
-    return z3.And(*conds) if conds else True
+    if res is None: res = z3.And(*conds) if conds else True
+    memo[key] = res
+    return res
 
 def show(ch, depth=0):
     r = []
@@ -136,6 +152,14 @@ def install(it):
                 b[k] = it_.ctx.divmod(q, 256)[1]
         return []
     m(r'<byteorder::LittleEndian as byteorder::ByteOrder>::write_u32', write_u32)
+    def write_u16(it_, buf, v):
+        b = deref_all(buf)
+        if len(b) < 2: raise Panic('byteorder: buffer too small')
+        if isinstance(v, int): b[0], b[1] = v & 0xFF, v >> 8
+        else:
+            q, r = it_.ctx.divmod(v, 256); b[0], b[1] = r, q
+        return []
+    m(r'<byteorder::LittleEndian as byteorder::ByteOrder>::write_u16', write_u16)
     m(r'core::num::<impl u16>::to_le_bytes', lambda it_, v: [v & 0xFF, v >> 8] if isinstance(v, int) else [it_.ctx.divmod(v, 256)[1], it_.ctx.divmod(v, 256)[0]])
     m(r'core::num::<impl u32>::to_le_bytes', lambda it_, v: [(v >> (8 * k)) & 0xFF for k in range(4)] if isinstance(v, int) else raise_unsupported())
     def cfb_create(it_, p):
